@@ -152,7 +152,12 @@ class Group:
             gw = gateway_bootstrap.bootstrap(proxy_io_master, spec)
         elif spec.popen or spec.ssh or spec.vagrant_ssh:
             io = gateway_io.create_io(spec, execmodel=self.execmodel)
-            gw = gateway_bootstrap.bootstrap(io, spec)
+            try:
+                gw = gateway_bootstrap.bootstrap(io, spec)
+            except BaseException:
+                # the process exists already: do not leave it behind
+                io.kill()
+                raise
         elif spec.socket:
             from . import gateway_socket
 
